@@ -466,6 +466,25 @@ func (c04) Check(out *sim.Outcome, ri *RunInfo) []Violation {
 		if v.Run == nil {
 			continue
 		}
+		// a destination mark needs a packet that proves arrival for this ttl: this also holds when
+		// don't-care packets make the rest of the reference ambiguous
+		for _, h := range v.Run.Hops {
+			a, ok := oracle.HopAddr(h)
+			if !h.IsDest || !ok || a != v.Spec.Target.Addr().Unmap() {
+				continue
+			}
+			backed := false
+			for _, l := range [][]oracle.Accepted{v.Fold.Accepted, v.Fold.DontCares} {
+				for _, acc := range l {
+					if acc.M.TTL == h.TTL && acc.M.Dest && acc.M.From.Unmap() == a {
+						backed = true
+					}
+				}
+			}
+			if !backed {
+				vs = append(vs, Violation{Rule: "C04.dest-flag:false-positive", Detail: fmt.Sprintf("%s: ttl=%d addr=%s marked destination but no packet read for that ttl (genuine or don't-care) is a proof of arrival for %s", v.Ep.Actor, h.TTL, a, v.Spec.Proto), Facts: facts("variant", variantOf(v))})
+			}
+		}
 		if v.Fold.Ambiguous > 0 {
 			ri.Inconclusive = "dontcare-ambiguous"
 			continue
@@ -667,6 +686,10 @@ func (c06) Gen(rng *rand.Rand, tier string, i int) *sim.Scenario {
 		wr.dest = 0
 		wr.flow.Hops = nil
 		wr.flow.ProbeLoss = nil
+	}
+	if chance(rng, 0.1) && wr.call.MaxTTL-wr.call.MinTTL < 12 {
+		// pacing slower than the listening window: the delay still has to be waited out
+		wr.call.DelayMs = wr.call.TimeoutMs + pick(rng, 1, 50, 400)
 	}
 	sc := scenarioFor("C06", rng, []*wireRun{wr})
 	applyWrapBases(rng, sc)
